@@ -97,6 +97,8 @@ def make_case(g, a, b):
     """-> (identifier, expected identifier after the rename, class, head, tail)"""
     ident, exp, cls, args = make_case0(g, a, b)
     head, tail = outside_span(*args) if args else ("", "")
+    if cls == "mixed_separators":
+        tail = ident[len(head) + len(SEP[args[0]].join(a)):]
     assert not args or (ident.startswith(head) and ident.endswith(tail)), (ident, head, tail)
     return ident, exp, cls, head, tail
 
@@ -129,6 +131,18 @@ def make_case0(g, a, b):
                 mid = [a[0] + "q"]
         ident = build(style, pre, mid, post, prefix, trail)
         return ident, ident, "near_miss", None
+    if 0.2 <= kind < 0.26:
+        # a digit glued in front of the term's first word: no word boundary there (\b), so the identifier regex does not start
+        # inside 2foo_bar_baz and the line is a near miss
+        comp = build(style, [], a, post or ["cfg"], "", False)
+        ident = r.choice(["2", "7", "42"]) + comp
+        return ident, ident, "near_miss", None
+    if 0.26 <= kind < 0.32 and style in ("Snake", "Kebab"):
+        # prefix + the term + a tail that mixes two separator kinds (_old_name_foo-bar): only the term's span changes
+        sep = SEP[style]
+        tailx = r.choice(["_foo-bar", "-some_thing", "_v2-x"])
+        ident = prefix + sep.join(a) + tailx
+        return ident, prefix + sep.join(b) + tailx, "mixed_separators", (style, [], a, [], prefix, False, None)
     if kind < 0.2 and style in ("Snake", "Kebab", "ScreamingSnake"):
         # a dotted chain whose first segment is a near miss that CONTAINS the second segment's text (xfoo_bar_cfg.foo_bar_cfg):
         # segment spans have to be the segments' own positions
@@ -199,13 +213,25 @@ def run(R):
             stats["identifiers"] += 1
             stats["by_class"][cls] = stats["by_class"].get(cls, 0) + 1
             R.case((search, replace, ident), nontrivial=True)
-            if l_got != l_want and cls not in ("near_miss", "doubled_separator"):
+            if l_got != l_want and cls not in ("near_miss", "doubled_separator", "mixed_separators"):
                 # The property fixes what lies OUTSIDE the term's span (byte for byte) and that the span is what was replaced;
                 # how the replacement is cased inside the span is C06's subject for standalone occurrences only
                 # (BlueNewGamma with blue.new -> BAR_SLOW_INDEX gives BARSLOWINDEXGamma; Fast-Token-Blue-42 gives Fast-SlowWest-42)
                 gi = l_got[4:].rsplit(" = ", 1)[0]
                 if only_span_changed(ident, gi, head, tail, b):
                     stats["by_class"]["span_rendering_differs"] = stats["by_class"].get("span_rendering_differs", 0) + 1
+                    continue
+            if l_got != l_want and cls == "mixed_separators":
+                # recorded finding: the tail's second separator kind is rewritten to the first (one separator for the whole re-join)
+                gi = l_got[4:].rsplit(" = ", 1)[0]
+                norm = lambda x: x.replace("-", "_").replace(".", "_")
+                if only_span_changed(ident, gi, head, tail, b):
+                    # prefix and tail byte for byte, the span holds the replacement (as typed: the shortcut for identifiers that
+                    # start with the term exactly as typed inserts the replacement unrendered)
+                    stats["by_class"]["span_rendering_differs"] = stats["by_class"].get("span_rendering_differs", 0) + 1
+                    continue
+                if norm(gi).lower() == norm(exp_id).lower():
+                    R.known("mixed_separators_normalised", f"{ident} -> {gi} (expected {exp_id})")
                     continue
             if l_got != l_want:
                 if cls == "doubled_separator":
